@@ -171,8 +171,48 @@ def _create_side(ctx, svc, create, host):
     return sites
 
 
+_PRESENCE_WRITERS = {
+    SVC: 'presence service (owner-session checks of C17.2)',
+    PRES: 'presence library (ephemeral create, host-equality deletes of '
+          'C17.5)',
+    'treadmill.cli.admin.master': 'operator tool',
+    'treadmill.sproc.nodeinfo': 'own service endpoint',
+    'treadmill.sproc.tickets': 'own service endpoint',
+    'treadmill.sproc.keytabs': 'own service endpoint',
+}
+
+
+def _writers_package(ctx):
+    """Thorough tier, whole package: presence nodes (running, endpoint,
+    identity) are written or deleted only by the listed
+    modules; any other writer bypasses the ownership rules of C17."""
+    # container presence nodes of the property's state: running, endpoint,
+    # identity (server presence belongs to the node, not to a container)
+    hits = K.zk_path_writers(ctx.index, ('running', 'endpoint',
+                                         'identity_group'))
+    inside = 0
+    for func, call, kind in hits:
+        if kind == 'identity_group' and func.module.name in (
+                'treadmill.scheduler.masterapi',):
+            continue      # the group definition node, not a member node
+        ok = func.module.name in _PRESENCE_WRITERS
+        inside += ok
+        ctx.ob('C17.3', func, call, ok,
+               'presence node (%s) written by a known writer: %s' % (
+                   kind, _PRESENCE_WRITERS.get(func.module.name))
+               if ok else
+               'presence node (%s) written from %s, outside the modules '
+               'whose ownership checks C17 verifies' % (kind,
+                                                        func.module.name),
+               construct='presence writer %s' % func.module.name)
+    ctx.require(inside >= 5, 'presence writes inside the known writers '
+                             '(found %d)' % inside)
+
+
 def check(ctx):
     index = ctx.index
+    if ctx.tier == 'thorough':
+        _writers_package(ctx)
     nz = N.Normaliser()
     svc = index.module(SVC).classes.get('PresenceResourceService')
     ctx.require(svc is not None, 'PresenceResourceService')
@@ -426,6 +466,7 @@ _PR = 'lib/python/treadmill/presence.py'
 _TZ = 'lib/python/treadmill/trace/app/zk.py'
 
 MUTANTS = [
+    ('presence-node-deleted-from-an-unknown-module', [('lib/python/treadmill/cleanup.py', '        cleanup_link = os.path.join(self.tm_env.cleanup_dir, instance)\n        try:\n            container_dir = os.readlink(cleanup_link)\n', '        cleanup_link = os.path.join(self.tm_env.cleanup_dir, instance)\n        zkutils.ensure_deleted(self.zkclient, z.path.running(instance))\n        try:\n            container_dir = os.readlink(cleanup_link)\n')], 'C17.3', 'thorough'),
     ('create-not-ephemeral', [(_P, """                self.zkclient, path, data, acl=[acl], ephemeral=True
 """, """                self.zkclient, path, data, acl=[acl], ephemeral=False
 """)], 'C17.1'),
